@@ -219,7 +219,8 @@ def check_factory(case, ctx: Ctx):
         if rng is not None and kind != "integer":
             # tight around the requested range as well
             # (an end of the range that nominally sits on a grid edge may get one more bin through rounding)
-            require(first + w > rng[0] - 1e-9 * w and last - w < rng[1] + 1e-9 * w, "superfluous_bin_outside_range", f"[{first!r},{last!r}] width {w!r} range {rng}")
+            slack = 1e-9 * w + 8 * math.ulp(max(abs(first), abs(last), abs(rng[0]), abs(rng[1])))  # (edges are rounded at their own magnitude)
+            require(first + w > rng[0] - slack and last - w < rng[1] + slack, "superfluous_bin_outside_range", f"[{first!r},{last!r}] width {w!r} range {rng}")
         if rng is None:
             # tight: no superfluous empty bin on either side
             require(model.locate(ps, lo, False) in (0,), "superfluous_left_bin", f"min {lo!r} first bins {ps[:2]}")
